@@ -39,6 +39,8 @@ def strategy_(draw, tier):
         lbls, opts = spec["labels"], spec["opts"]
     mode = draw(st.sampled_from(["force", "distributor"]))
     out = dict(labels=lbls, opts=opts, mode=mode)
+    if mode == "force" and not small and spec.get("via"):
+        out["via"] = spec["via"]
     if mode == "distributor":
         o = {k: v for k, v in opts.items() if k in ("algorithm", "density", "nodeSpacing", "stubWidth")}
         lw = draw(st.sampled_from(["d", None, 0, "fromopts", "fromopts", "fromopts"]))
@@ -69,7 +71,7 @@ def check(spec, ctx):
     def thunk():
         nodes = engine.build_nodes(lbls)
         if mode == "force":
-            f = Force(dict(spec["opts"]))
+            f = engine.make_force(spec)
             f.nodes(nodes)
             f.compute()
             return nodes, f.getLayers(), f
